@@ -11,6 +11,7 @@ Local Open Scope N_scope.
 
 Record sha_params := {
   sp_w : N;                      (* word size in bits *)
+  sp_mask : N;                   (* 2^w - 1, as a literal (evaluation speed) *)
   sp_block : nat;                (* block size in bytes *)
   sp_lenbytes : nat;             (* size of the length field in bytes *)
   sp_k : list N; sp_h0 : list N;
@@ -21,14 +22,15 @@ Record sha_params := {
 Section Sha.
   Variable P : sha_params.
   Let w := sp_w P.
-  Let m := 2 ^ w.
-  Definition rotr (n x : N) : N := N.lor (N.shiftr x n) ((N.shiftl x (w - n)) mod m).
-  Definition add (a b : N) : N := (a + b) mod m.
+  Let mask := sp_mask P.
+  (* reduction modulo 2^w is masking with 2^w - 1 *)
+  Definition rotr (n x : N) : N := N.lor (N.shiftr x n) (N.land (N.shiftl x (w - n)) mask).
+  Definition add (a b : N) : N := N.land (a + b) mask.
   Definition bigS (c : N * N * N) (x : N) : N :=
     let '(a, b, d) := c in N.lxor (N.lxor (rotr a x) (rotr b x)) (rotr d x).
   Definition smallS (c : N * N * N) (x : N) : N :=
     let '(a, b, d) := c in N.lxor (N.lxor (rotr a x) (rotr b x)) (N.shiftr x d).
-  Definition ch (x y z : N) : N := N.lxor (N.land x y) (N.land (N.lxor x (m - 1)) z).
+  Definition ch (x y z : N) : N := N.lxor (N.land x y) (N.land (N.lxor x mask) z).
   Definition maj (x y z : N) : N := N.lxor (N.lxor (N.land x y) (N.land x z)) (N.land y z).
 
   Fixpoint be_word (l : bytes) (acc : N) : N :=
@@ -89,19 +91,22 @@ Section Sha.
 End Sha.
 
 Definition sha256_params : sha_params :=
-  {| sp_w := 32; sp_block := 64; sp_lenbytes := 8;
+  {| sp_w := 32; sp_mask := 4294967295; sp_block := 64; sp_lenbytes := 8;
      sp_k := [1116352408; 1899447441; 3049323471; 3921009573; 961987163; 1508970993; 2453635748; 2870763221; 3624381080; 310598401; 607225278; 1426881987; 1925078388; 2162078206; 2614888103; 3248222580; 3835390401; 4022224774; 264347078; 604807628; 770255983; 1249150122; 1555081692; 1996064986; 2554220882; 2821834349; 2952996808; 3210313671; 3336571891; 3584528711; 113926993; 338241895; 666307205; 773529912; 1294757372; 1396182291; 1695183700; 1986661051; 2177026350; 2456956037; 2730485921; 2820302411; 3259730800; 3345764771; 3516065817; 3600352804; 4094571909; 275423344; 430227734; 506948616; 659060556; 883997877; 958139571; 1322822218; 1537002063; 1747873779; 1955562222; 2024104815; 2227730452; 2361852424; 2428436474; 2756734187; 3204031479; 3329325298];
      sp_h0 := [1779033703; 3144134277; 1013904242; 2773480762; 1359893119; 2600822924; 528734635; 1541459225];
      sp_S0 := (2, 13, 22); sp_S1 := (6, 11, 25); sp_s0 := (7, 18, 3); sp_s1 := (17, 19, 10); sp_out := 32 |}.
 
 Definition sha512_params : sha_params :=
-  {| sp_w := 64; sp_block := 128; sp_lenbytes := 16;
+  {| sp_w := 64; sp_mask := 18446744073709551615; sp_block := 128; sp_lenbytes := 16;
      sp_k := [4794697086780616226; 8158064640168781261; 13096744586834688815; 16840607885511220156; 4131703408338449720; 6480981068601479193; 10538285296894168987; 12329834152419229976; 15566598209576043074; 1334009975649890238; 2608012711638119052; 6128411473006802146; 8268148722764581231; 9286055187155687089; 11230858885718282805; 13951009754708518548; 16472876342353939154; 17275323862435702243; 1135362057144423861; 2597628984639134821; 3308224258029322869; 5365058923640841347; 6679025012923562964; 8573033837759648693; 10970295158949994411; 12119686244451234320; 12683024718118986047; 13788192230050041572; 14330467153632333762; 15395433587784984357; 489312712824947311; 1452737877330783856; 2861767655752347644; 3322285676063803686; 5560940570517711597; 5996557281743188959; 7280758554555802590; 8532644243296465576; 9350256976987008742; 10552545826968843579; 11727347734174303076; 12113106623233404929; 14000437183269869457; 14369950271660146224; 15101387698204529176; 15463397548674623760; 17586052441742319658; 1182934255886127544; 1847814050463011016; 2177327727835720531; 2830643537854262169; 3796741975233480872; 4115178125766777443; 5681478168544905931; 6601373596472566643; 7507060721942968483; 8399075790359081724; 8693463985226723168; 9568029438360202098; 10144078919501101548; 10430055236837252648; 11840083180663258601; 13761210420658862357; 14299343276471374635; 14566680578165727644; 15097957966210449927; 16922976911328602910; 17689382322260857208; 500013540394364858; 748580250866718886; 1242879168328830382; 1977374033974150939; 2944078676154940804; 3659926193048069267; 4368137639120453308; 4836135668995329356; 5532061633213252278; 6448918945643986474; 6902733635092675308; 7801388544844847127];
      sp_h0 := [7640891576956012808; 13503953896175478587; 4354685564936845355; 11912009170470909681; 5840696475078001361; 11170449401992604703; 2270897969802886507; 6620516959819538809];
      sp_S0 := (28, 34, 39); sp_S1 := (14, 18, 41); sp_s0 := (1, 8, 7); sp_s1 := (19, 61, 6); sp_out := 64 |}.
 
 Definition sha256 : bytes -> bytes := sha sha256_params.
 Definition sha512 : bytes -> bytes := sha sha512_params.
+
+Example masks_ok : sp_mask sha256_params = 2 ^ 32 - 1 /\ sp_mask sha512_params = 2 ^ 64 - 1.
+Proof. split; reflexivity. Qed.
 
 (* FIPS 180-4 test vectors: "abc" *)
 Example sha256_abc :
